@@ -31,7 +31,7 @@ TRUSTED = [
     "the harness assigns values to the SYMBOL OBJECTS of the original and to Symbol(str(s)) of the translation",
 ]
 ASSUMPTIONS = [
-    "symbol names are ASCII for the sort-key model (str.isdigit accepts characters int() rejects, e.g. superscript two)",
+    "symbol names are ASCII for the sort-key MODEL; names beyond ASCII (decimal digits of other scripts, superscript / circled digits, letters) are judged by the oracle (kind ukey): every name has a key whose integer groups are its maximal runs of Unicode decimal digits",
     "at points where the original expression has no finite value (division by zero, poles) nothing is claimed; "
     "the Lean statement uses the total field convention 0^-1 = 0 on both sides",
     "evaluate=False (non-canonical) trees are checked by the oracle; they are compared with the model only when no "
@@ -1043,6 +1043,11 @@ def generate(rng, tier):
         cases.append({"kind": "key", "name": _gen_name(rng)})
     for _ in range(300 if big else 40):
         cases.append(_gen_keyhist(rng))
+    # names beyond ASCII (oracle only: the sort-key model is ASCII): characters that are digits for str.isdigit() but not decimal
+    # digits (superscripts, circled numbers), decimal digits of other scripts, letters of other scripts
+    for _ in range(120 if big else 24):
+        pool = ["a", "x_", "beta", "θ", "é", "_", "²", "³", "①", "¹", "٣", "७", "５", "1", "10", "2", "007", "-"]
+        cases.append({"kind": "ukey", "name": "".join(rng.choice(pool) for _ in range(rng.randrange(1, 6)))})
     for _ in range(600 if big else 80):
         pfx = _gen_name(rng)
         while pfx and pfx[-1].isdigit():
@@ -1104,6 +1109,8 @@ def nontrivial(c):
         return len(set(c["names"])) >= 3
     if k == "key":
         return len(re.findall(r"\d+", c["name"])) >= 2
+    if k == "ukey":
+        return any(ord(ch) > 127 for ch in c["name"])
     return False
 
 
@@ -1297,6 +1304,11 @@ def _run_impl(c):
     if k == "key":
         s = ex.Symbol(c["name"])
         return {"key": _key_json(so.natural_key(s)), "revlex": _key_json(so.natural_key_revlex(sympy.Symbol(c["name"]) if c["name"] else s))}
+    if k == "ukey":
+        try:
+            return {"key": _key_json(so.natural_key(ex.Symbol(c["name"]))), "revlex": _key_json(so.natural_key_revlex(ex.Symbol(c["name"])))}
+        except Exception as e:
+            return {"raised": f"{type(e).__name__}: {e}"}
     if k == "keypair":
         a, b = c["pfx"] + c["d1"] + c["sfx"], c["pfx"] + c["d2"] + c["sfx"]
         return {"nat": _cmp(so.natural_key(ex.Symbol(a)), so.natural_key(ex.Symbol(b))),
@@ -1669,6 +1681,30 @@ def oracle(c, out):
         if got != want:
             return ("natural-key", f"natural_key({c['name']!r}) = {got}, digit groups are {want}")
         if [x[1] for x in out["revlex"]] != want[::-1]:
+            return ("natural-key-revlex", f"natural_key_revlex({c['name']!r}) = {out['revlex']} is not the reversed key")
+        return None
+    if k == "ukey":
+        import unicodedata
+        if "raised" in out:
+            return ("natural-key-raises", f"natural_key({c['name']!r}) raised {out['raised']}: every symbol name has a sort key")
+        toks, cur, dig = [], "", False   # maximal runs of Unicode DECIMAL digits are the embedded integers
+        for ch in c["name"]:
+            d = unicodedata.category(ch) == "Nd"
+            if cur and d != dig:
+                toks.append(int(cur) if dig else cur)
+                cur = ""
+            cur += ch
+            dig = d
+        if cur:
+            toks.append(int(cur) if dig else cur)
+        if not toks or isinstance(toks[0], int):
+            toks = [""] + toks
+        if isinstance(toks[-1], int):
+            toks = toks + [""]
+        got = [x[1] for x in out["key"]]
+        if got != toks:
+            return ("natural-key", f"natural_key({c['name']!r}) = {got}, decimal-digit groups are {toks}")
+        if [x[1] for x in out["revlex"]] != toks[::-1]:
             return ("natural-key-revlex", f"natural_key_revlex({c['name']!r}) = {out['revlex']} is not the reversed key")
         return None
     if k == "keypair":
